@@ -403,8 +403,16 @@ func (r *DocumentHandler) ResolveDocument(shortOrLongFormDID string,
 	}
 
 	// resolve document from the blockchain
-	doc, err := r.resolveRequestWithID(ns, shortFormDID, uniquePortion, pv, opts...)
+	doc, published, err := r.resolveRequestWithID(ns, shortFormDID, uniquePortion, pv, opts...)
 	if err == nil {
+		if createReq != nil && !published {
+			// nothing is anchored yet (the create is merely in the unpublished operation store): the long form
+			// DID has to carry the initial state that the DID was created from
+			if _, err = r.resolveRequestWithInitialState(uniquePortion, shortOrLongFormDID, createReq, pv); err != nil {
+				return nil, err
+			}
+		}
+
 		return doc, nil
 	}
 
@@ -440,12 +448,12 @@ func (r *DocumentHandler) getNamespace(shortOrLongFormDID string) (string, error
 }
 
 func (r *DocumentHandler) resolveRequestWithID(ns, shortFormDid, uniquePortion string, pv protocol.Version,
-	opts ...document.ResolutionOption) (*document.ResolutionResult, error) {
+	opts ...document.ResolutionOption) (*document.ResolutionResult, bool, error) {
 	internalResult, err := r.processor.Resolve(uniquePortion, opts...)
 	if err != nil {
 		logger.Debug("Failed to resolve uniquePortion", logfields.WithSuffix(uniquePortion), log.WithError(err))
 
-		return nil, err
+		return nil, false, err
 	}
 
 	var ti protocol.TransformationInfo
@@ -454,7 +462,7 @@ func (r *DocumentHandler) resolveRequestWithID(ns, shortFormDid, uniquePortion s
 		// the DID starts with the namespace it was matched by (which may be an alias): the hint is what follows that one
 		hint, err := GetHint(shortFormDid, ns, uniquePortion)
 		if err != nil {
-			return nil, err
+			return nil, false, err
 		}
 
 		ti = GetTransformationInfoForUnpublished(ns, r.domain, hint, uniquePortion, "")
@@ -462,7 +470,9 @@ func (r *DocumentHandler) resolveRequestWithID(ns, shortFormDid, uniquePortion s
 		ti = GetTransformationInfoForPublished(r.namespace, shortFormDid, uniquePortion, internalResult)
 	}
 
-	return pv.DocumentTransformer().TransformDocument(internalResult, ti)
+	result, err := pv.DocumentTransformer().TransformDocument(internalResult, ti)
+
+	return result, len(internalResult.PublishedOperations) > 0, err
 }
 
 // GetHint returns hint from id.
